@@ -16,6 +16,13 @@ FAILED=$(grep -E "^\s+[0-9]+ - " $S/ctest_with_patch.txt | awk '{print $3}' | so
 echo "failing test binaries: $FAILED"; echo "baseline always-failing: $BASE_FAIL"
 EXTRA=""; for t in $FAILED; do echo " $BASE_FAIL " | grep -q " $t " || EXTRA="$EXTRA $t"; done
 echo "SUITE_EXTRA_FAILURES=[$EXTRA ]"
+# a test that failed in the parallel (loaded) run is re-run alone: timing-sensitive tests fail under load with or without a patch
+STILL=""
+for t in $EXTRA; do
+  ok=0; for k in 1 2 3; do if timeout 1500 ctest --test-dir $WT/_build -R "^$t\$" --timeout 900 > $S/rerun_$t.txt 2>&1; then ok=1; break; fi; done
+  if [ $ok = 1 ]; then echo "rerun alone: $t PASSED (load-sensitive in the parallel run)"; else echo "rerun alone: $t FAILED 3 times"; STILL="$STILL $t"; fi
+done
+echo "SUITE_FAILURES_AFTER_RERUN=[$STILL ]"
 echo "== demo with patch (expected: fails)"
 mkdir -p $WT/demo; cp $S/demo* $S/build.sh $WT/demo/ 2>/dev/null; cp $S/*.cpp $S/*.h $WT/demo/ 2>/dev/null
 (cd $WT/demo && timeout 900 bash ./build.sh) > $S/demo_with_patch.txt 2>&1; RC1=$?
